@@ -21,7 +21,7 @@ D = {
  "C15_B": ("caught", "quick", "./check C15: c15_prob_checked (NaN accepted); replays natively"),
  "C19_A": ("caught", "quick", "./check C19: c19_qgrams_a3_q2_n4 / a5 'q-gram code differs from the packed-rank definition'; replays natively"),
  "C19_B": ("missed", "-", "lcskpp builds a Fenwick tree whose length is a symbolic expression; every lcskpp/sdpkpp harness ran out of memory at 2-3 matches, so chaining is listed as not decided"),
- "C01_A": ("not completed", "thorough", "the only instance that exercises semiglobal()-then-custom() with asymmetric y clips is c01_restore_1x2_k4_s0_semi (thorough tier, 20 min solve); the run against this change was started and had to be stopped for time before the solver verdict + native replay (trace generation ~12x solve time) finished"),
+ "C01_A": ("reported by the solver, not confirmed natively", "thorough", "./check C01 --tier thorough --only restore_1x2_k4: c01_restore_1x2_k4_s0_semi FAILS after 1532 s with the check 'C01: a disabled end was clipped' (exactly the seeded effect: after semiglobal() the y-suffix clip is enabled by mistake). The trace-producing re-run needed for the native replay did not finish within its 60-minute cap, so the check exits 2 (not verified) instead of printing VIOLATION. The quick tier does not contain a restore instance (20 min per query)"),
  "C01_B": ("caught", "quick", "./check C01: c01_custom_1x1_k1 and _k15 (xclip_prefix enabled): the reported score exceeds the re-scored path / a competitor; replays natively"),
  "C02_A": ("missed", "-", "needs the banded DP at shape 1x1 with yclip_suffix enabled; every non-empty banded instance crashed CBMC at the 24 GB cap (DESIGN 10.1). With the change applied ./check C02 reports only its two known findings"),
  "C02_B": ("missed", "-", "needs custom_with_matches with two matches; that entry point timed out at 2x2 with one match and is listed as not decided"),
